@@ -67,4 +67,17 @@ theorem src_cross_fields_get_own_options :
 /-- the standard deviation is the population one (ddof 0) and is stored clipped, so forward and inverse use one value -/
 theorem src_std_clip_stored : Gen.scalerStdDdof = 0 ∧ Gen.scalerStdClipIsStored = true := by decide
 
+/-- **standardize_unit_invariant_above_floor**: re-expressing a feature in other units (`x ↦ c·x`, `c > 0`) leaves the
+standardised value unchanged as long as the deviation stays above the (absolute, source) floor `f` in both units — the
+restriction the property itself makes. Below the floor the feature is treated as constant and the invariance is NOT claimed. -/
+theorem standardize_unit_invariant_above_floor (x μ σ f c : ℝ) (hc : 0 < c) (h1 : f ≤ σ) (h2 : f ≤ c * σ) :
+    (c * x - c * μ) / max (c * σ) f = (x - μ) / max σ f := by
+  rw [max_eq_left h2, max_eq_left h1, ← mul_sub, mul_div_mul_left _ _ hc.ne']
+
+/-- the hypotheses are satisfiable and the conclusion is not trivial -/
+example : ((2 : ℝ) * 3 - 2 * 1) / max (2 * 4) (1 / 8) = (3 - 1) / max 4 (1 / 8) :=
+  standardize_unit_invariant_above_floor 3 1 4 (1 / 8) 2 (by norm_num) (by norm_num) (by norm_num)
+
+theorem src_std_floor_absolute : Gen.scalerStdFloorIsAbsolute = true := by decide
+
 end C08
